@@ -7,7 +7,7 @@ VERUS_UNITS = {
     'sync_admit': dict(template='contracts/sync_admit.rs', props=['C12', 'C13', 'C04', 'C08'], rlimit=30),
     'deque_lift': dict(template='contracts/deque_lift.rs', props=['C08', 'C11', 'C12'], rlimit=30),
     'sync_maint': dict(template='contracts/sync_maint.rs', props=['C03', 'C04', 'C05', 'C06', 'C07', 'C08', 'C10', 'C11', 'C12', 'C13', 'C14', 'C15'], rlimit=50),
-    'sync': dict(template='contracts/sync.rs', props=['C01', 'C03', 'C04', 'C05', 'C06', 'C07', 'C08', 'C10', 'C17'], rlimit=30),
+    'sync': dict(template='contracts/sync.rs', props=['C01', 'C03', 'C04', 'C05', 'C06', 'C07', 'C08', 'C10', 'C11', 'C12', 'C14', 'C15', 'C17'], rlimit=30),
     'udeques': dict(template='contracts/udeques.rs', props=['C01', 'C03', 'C05', 'C07', 'C08', 'C10', 'C11', 'C12', 'C13', 'C17'], rlimit=30),
     'unsync': dict(template='contracts/unsync.rs', props=['C01', 'C03', 'C04', 'C05', 'C06', 'C07', 'C08', 'C10', 'C11', 'C12', 'C13', 'C14', 'C15', 'C17'], rlimit=50),
 }
@@ -110,7 +110,7 @@ CLAIMS = {
                 note='assumes std specs of count_ones/next_power_of_two/pow/into_boxed_slice; sketch table <= 2^27 words; ' + _ENV),
     'C17': dict(technique='Verus pass-through contracts on builders, Policy, with_everything and policy(); Kani complete proofs of the 1000-year guard (both directions) and of weigh',
                 text='every builder setter is proved to set exactly its knob and keep the others, build/build_with_hasher to hand the five knobs unchanged to with_everything, with_everything (unsync, real text) to store them and start empty whatever initial_capacity is, policy() to report the stored values; ensure_expirations_or_panic returns iff both durations <= 1000 years (all Durations); weigh(None) == 1',
-                note='the concurrent cache constructor chain (BaseCache::new, Inner::new) is assumed, Inner::policy is proved; the weigher(..) setters (dyn Fn boxing) are rejected by Verus and not under contract; new(n) == builder().max_capacity(n).build() follows from identical postconditions up to the unspecified RandomState::default(). ' + _ENV),
+                note='the concurrent cache constructor chain (BaseCache::new, Inner::new) is assumed; Inner::policy, BaseCache::policy and sync::Cache::policy are proved (the public policy() reports exactly the stored knobs); the weigher(..) setters (dyn Fn boxing) are rejected by Verus and not under contract; new(n) == builder().max_capacity(n).build() follows from identical postconditions up to the unspecified RandomState::default(). ' + _ENV),
     'C15': dict(technique='Verus frame contract: contains_key leaves exactly the state the housekeeping prefix leaves; lemma that this housekeeping leaves no trim work behind; bounded metamorphic runtime check of the statement itself',
                 text='contains_key is proved to change nothing beyond the housekeeping every operation starts with: same estimator, same recency order of survivors, same timestamps, and (fewer residents than one batch) no surplus left, so the next operation trims nothing more',
                 note=_UNS + _ENV + ' iter takes &self (no interior mutability in the unsync cache). The relational (two-run) statement is not a function contract: it is checked literally only by the bounded metamorphic runtime stand-in, which reports the known finding KF-C15-1 (an extra contains_key trims a pending update surplus earlier than the history without it).'),
